@@ -18,6 +18,8 @@ import Pyx12Verif.Drv.Doc
 import Pyx12Verif.Drv.C19Iter
 import Pyx12Verif.Drv.DocSinks
 import Pyx12Verif.Drv.CtxDoc
+import Pyx12Verif.Drv.C08Text
+import Pyx12Verif.Drv.DocNest
 
 open Pyx12Verif
 
@@ -47,7 +49,13 @@ partial def loop (hin hout : IO.FS.Stream) (st : St) : IO Unit := do
         | none =>
           match Drv.CtxDoc.handle st.doc fs with
           | some r => hout.putStrLn r; loop hin hout st
-          | none => hout.putStrLn "bad-op"; loop hin hout st
+          | none =>
+            match Drv.C08Text.handle st.doc fs with
+            | some r => hout.putStrLn r; loop hin hout st
+            | none =>
+              match Drv.DocNest.handle st.doc fs with
+              | some r => hout.putStrLn r; loop hin hout st
+              | none => hout.putStrLn "bad-op"; loop hin hout st
 
 def main : IO Unit := do
   let hin ← IO.getStdin
